@@ -298,6 +298,8 @@ def gen_time(run):
   for L in (1, 2, 3, 5, 8, 33, 64, 65, 200):
     for which in ("defining-sum", "multi-frequency", "linearity", "dc-mean"):
       yield (which, L, n)
+    if L <= 65:
+      yield ("complex-block", L, n)
 
 
 def dft_exact(blk, f):
@@ -338,6 +340,33 @@ def run_time(case):
                      "freq_response once the memory is full", {"w": w, "n": k, "y": str(H * x[k])}, str(y[k]))
     return R(None, len(h) > 2, which)
   L = arg
+  if which == "complex-block":
+    # complex samples (dyadic parts): the same defining sum, linear over complex scalars
+    cb = [complex(((3 * k) % 7) - 3, ((5 * k * k) % 9 - 4) / 2.0) for k in range(L)]
+    mag = sum(abs(v) for v in cb)
+    for w in ws:
+      acc = C(0)
+      for n_, xv in enumerate(cb):
+        acc = acc + C(F(xv.real), F(xv.imag)) * C.of(cmath.exp(-1j * n_ * w))
+      for norm in (True, False):
+        got = dft(list(cb), [w], normalize=norm)[0]
+        e = acc.cfloat() / (L if norm else 1)
+        if abs(got - e) > 32 * L * U * mag:
+          return bad("dft:complex-block", "dft of a complex block is not the defining sum",
+                     {"w": w, "normalize": norm, "X": str(e)}, str(got))
+      a = 2 - 1.5j
+      lhs = dft([a * v for v in cb], [w], normalize=False)[0]
+      rhs = a * dft(list(cb), [w], normalize=False)[0]
+      if abs(lhs - rhs) > 64 * L * U * abs(a) * mag:
+        return bad("dft:complex-linearity", "dft must be linear over complex scalars", str(rhs), str(lhs))
+    # a FIR with complex taps: unnormalised dft of its impulse response = freq_response
+    filt = ZFilter(list(cb))
+    for w in ws[:12]:
+      d = dft(list(cb), [w], normalize=False)[0]
+      if abs(d - filt.freq_response(w)) > 64 * L * U * mag:
+        return bad("dft:impulse-response", "unnormalised DFT of a complex FIR impulse response must equal freq_response",
+                   {"w": w, "H": str(filt.freq_response(w))}, str(d))
+    return R(None, L > 1, which)
   blk = [F(v) for v in [3, -1, F(1, 2), 4, -2, 0, 7, 1][:L]]
   if L > 8:
     blk = [F(((5 * k * k + k) % 13) - 6, 2) for k in range(L)]
